@@ -17,8 +17,8 @@ var IDPool = []party.ID{
 	"alice", "bob", "carol", "dave",
 	"\x01", "\x02", "\x03",
 	"zürich", "日本", "ключ",
-	"0123456789abcdef0123456789abcdef",   // 32 bytes
-	"0123456789abcdef0123456789abcdeg",   // adjacent to the previous
+	"0123456789abcdef0123456789abcdef",                  // 32 bytes
+	"0123456789abcdef0123456789abcdeg",                  // adjacent to the previous
 	"this-identifier-is-longer-than-thirty-two-bytes-A", // > 32 bytes: reduced mod q
 	"this-identifier-is-longer-than-thirty-two-bytes-B",
 	"participant-0001", "participant-0002", "participant-0003",
@@ -87,6 +87,11 @@ type Opt func(n *sim.Net)
 
 // NewSession creates the world and its nodes (construction emits first-round messages) but does not run it.
 func NewSession(c *fw.Ctx, tag string, mk map[party.ID]Mk, honest func(party.ID) bool) *Session {
+	return NewSessionL(c, tag, mk, honest, nil)
+}
+
+// NewSessionL is NewSession with a per-party override of the randomness-stream label.
+func NewSessionL(c *fw.Ctx, tag string, mk map[party.ID]Mk, honest func(party.ID) bool, label func(party.ID) string) *Session {
 	n := sim.NewNet(c.S, c.R)
 	n.NoLog = !c.KeepLog
 	s := &Session{Net: n, Nodes: map[party.ID]*sim.Node{}, Errs: map[party.ID]error{}}
@@ -101,13 +106,19 @@ func NewSession(c *fw.Ctx, tag string, mk map[party.ID]Mk, honest func(party.ID)
 		if honest != nil {
 			h = honest(id)
 		}
-		node, err := n.Add(id, c.Label(tag, id), h, tag, mk[id])
+		lab := c.Label(tag, id)
+		if label != nil {
+			if l := label(id); l != "" {
+				lab = l
+			}
+		}
+		node, err := n.Add(id, lab, h, tag, mk[id])
 		s.Nodes[id] = node
 		if err != nil {
 			s.Errs[id] = err
 		}
 	}
-	n.Start()
+	// first-round messages are emitted by Net.Run (after the caller installed its hooks)
 	return s
 }
 
